@@ -21,13 +21,17 @@
            wf     : the matrix satisfies `wfRows` (= i_mep::is_valid's argument-row conditions)
         gene ::= T <terminal index> <hex text> <bits> | F <symbol index> <n> (<arg category> <arg row>)*n
     team <fmt> <hex text printed for the team> <k> <member text hex>*k
-        -> `team=b lines=b` : teamG of the members' texts is the team's text / splitLines gives them back
+        -> `team=b lines=b` : the team loop (extracted body, flag language_f + fmt) run on the members'
+           texts gives the team's text / splitLines gives the members' texts back
+    stream <op>*     ops as in the harness: c cpp mql py list dump inline tree graphviz long short pf<n> print fresh
+        -> one `flag:long:L<k>` (language(symbol::format(k))) or `flag:long:F<callee>` per print
     term <fmt> <k> <hex text> <bits>   -> hex of the terminal's display
     parse <fmt> <hex>                  -> `some`/`none` and the token count
   tree ::= F <symbol index> <n> tree*n | T <terminal index> <hex text> <bits>
 -/
 import Vita.C19.Model
 import Vita.C19.Genome
+import Vita.C19.GenExport
 open Vita.C19
 
 def hexVal (c : Char) : Nat :=
@@ -189,13 +193,31 @@ def answer (line : String) : String :=
               | _ => "bad-op"
           | none => "bad-op"
       | _, _, _ => "bad-op"
-  | "team" :: _ :: h :: k :: rest =>
-      match k.toNat? with
-      | some k =>
+  | "team" :: fm :: h :: k :: rest =>
+      match k.toNat?, fm.toNat? with
+      | some k, some fi =>
           if rest.length != k then "bad-op" else
           let ms := rest.map unhex
           let text := unhex h
-          s!"team={b01 (teamG ms == text)} lines={b01 (splitLines text == ms)}"
+          s!"team={b01 (teamExec Gen.teamBody (Gen.dispatchBase + fi) ms == text)} lines={b01 (splitLines text == ms)}"
+      | _, _ => "bad-op"
+  | "stream" :: ops =>
+      let toOp (t : String) : Option Op :=
+        match t with
+        | "c" => some (.manip "c_language" 0) | "cpp" => some (.manip "cpp_language" 0)
+        | "mql" => some (.manip "mql_language" 0) | "py" => some (.manip "python_language" 0)
+        | "list" => some (.manip "list" 0) | "dump" => some (.manip "dump" 0)
+        | "inline" => some (.manip "in_line" 0) | "tree" => some (.manip "tree" 0)
+        | "graphviz" => some (.manip "graphviz" 0) | "long" => some (.manip "long_form" 0)
+        | "short" => some (.manip "short_form" 0) | "print" => some .print | "fresh" => some .fresh
+        | _ => if t.startsWith "pf" then (t.drop 2).toNat?.map (.manip "print_format" ·) else none
+      match ops.mapM toOp with
+      | some os =>
+          let out := runOps Gen.manipulators Gen.dispatchCases Gen.dispatchBase Gen.formatSlot Gen.longSlot
+                       StreamSt.fresh os
+          if out.isEmpty then "-" else
+          " ".intercalate (out.map fun (pf, lf, sh) =>
+            s!"{pf}:{lf}:" ++ (match sh with | .lang k => s!"L{k}" | .fn c => "F" ++ c))
       | none => "bad-op"
   | ["term", fm, k, h, b] =>
       match fm.toNat?, k.toNat?, b.toNat? with
